@@ -41,11 +41,13 @@ def trap_mono_cond_with_edgeworth(cfg):
 
 
 def _d1(case):
-  """Failing clauses are all monotonicity / trust clauses and the config is in the D1 class."""
+  """The config is in the D1 class and the ONLY failing clause is monotonicity along a conditional dimension of a
+  trapezoid trust (per-call-site class: trust and bound clauses, and monotonicity along other dimensions, are not
+  suppressed - the theorems C01_edgeworth / C01_trapezoid / C01_bounds carry no D1 guard)."""
   if not trap_mono_cond_with_edgeworth(case.desc["cfg"]):
     return False
   clauses = (case.pred_fail or "").split("; ")
-  return all(("monotonicity along" in c or "trapezoid trust" in c or "edgeworth trust" in c) for c in clauses)
+  return all("monotonicity along the monotone conditional dimension of a trapezoid trust" in c for c in clauses)
 
 
 KNOWN_CLASSES = {"trap_mono_cond_with_edgeworth": _d1}
@@ -54,8 +56,15 @@ KNOWN_CLASSES = {"trap_mono_cond_with_edgeworth": _d1}
 def violations(w, cfg, scale):
   out = []
   tol = PRED_TOL * max(1.0, scale)
-  v = latpred.mono_viol(w, cfg["sizes"], cfg["monos"])
+  # monotone dimensions that are the CONDITIONAL feature of a trapezoid trust are judged separately: known finding D1
+  # concerns exactly them (theorem C01_monotone carries the guard; the Edgeworth / trapezoid / bounds theorems do not)
+  cond = set(c for _, c, _ in cfg["trap"])
+  m_cond = [m if d in cond else 0 for d, m in enumerate(cfg["monos"])]
+  m_rest = [0 if d in cond else m for d, m in enumerate(cfg["monos"])]
+  v = latpred.mono_viol(w, cfg["sizes"], m_rest)
   if v > tol: out.append("monotonicity along a monotone dimension violated by %r" % v)
+  v = latpred.mono_viol(w, cfg["sizes"], m_cond)
+  if v > tol: out.append("monotonicity along the monotone conditional dimension of a trapezoid trust violated by %r" % v)
   v = latpred.edgeworth_viol(w, cfg["sizes"], cfg["edge"])
   if v > tol: out.append("edgeworth trust violated by %r" % v)
   if not documented_exception(cfg):
